@@ -432,6 +432,58 @@ def run_round5(chk, rng, judge, mult, emit):
             if mode < N and not (kind == "vec" and N == 1):
                 judge("cp_mode_dot_alias", inp, (tuple(pattern), is_class, copy, kind, mode))
 
+    # --- (D2) histories of copy=True calls, each on ANY tensor seen so far (the caller's operand or an earlier result)
+    for it in range(16 * mult):
+        N = rng.randint(2, 4)
+        w, fs, feat = H.gen_cp(rng, N=N, maxdim=3)
+        pattern = list(range(N))
+        if it % 2 == 0:
+            i, j = rng.sample(range(N), 2); pattern[j] = pattern[i]
+        table = [w] + fs
+        ls = [1 + p for p in pattern]
+        is_class = rng.random() < 0.5
+        inp0 = {"table": table, "ls": ls, "w_idx": 0, "is_class": is_class}
+        st0, built = call(build_heap_operand, inp0)
+        if st0 != "ok":
+            continue
+        arrs, facs, wv, operand = built
+        before = [a.copy() for a in arrs]
+        tensors, shapes = [operand], [[int(table[i].shape[0]) for i in ls]]
+        ops, results, failed = [], [], False
+        dense = [H.dense_cp(before[0], [before[i] for i in ls])]
+        for step in range(rng.randint(2, 4)):
+            k = rng.randrange(len(tensors))
+            shp_k = shapes[k]
+            mode = rng.randrange(len(shp_k))
+            kind = rng.choice(["mat", "veck"] + (["vec"] if len(shp_k) >= 2 else []))
+            if rng.random() < 0.08:
+                kind = "badvec"
+            x = H.gen_operand(rng, shp_k[mode], "vec" if kind == "veck" else kind)
+            kd = kind == "veck"
+            st, out = call(cp_mode_dot, tensors[k], x.copy(), mode, keep_dim=kd, copy=True)
+            ops.append(f"({k}%nat, {'(OpMat ' + zmat(x) + ')' if x.ndim == 2 else '(OpVec ' + zrow(x) + ')'}, {mode}%nat, {C.boolc(kd)})")
+            if st != "ok":
+                failed = True
+                break
+            exp_d = H.dense_mode_dot(dense[k], x, mode, kd)
+            got = H.dense_cp(np.asarray(out[0]), [np.asarray(f) for f in out[1]])
+            if not H.close(got, exp_d, exact=True) or tuple(out.shape) != exp_d.shape:
+                chk.finding("tensorly.cp_tensor.cp_mode_dot", {"table": table, "ls": ls, "w_idx": 0, "is_class": is_class, "copy": True, "x": x, "mode": mode, "keep_dim": kd, "step": step},
+                            f"step {step} of a history of copy=True calls does not represent the mode product of its operand", "cp_mode_dot_history")
+            tensors.append(out); shapes.append([int(d) for d in out.shape]); dense.append(exp_d); results.append(out)
+        res_arrays = [np.asarray(a) for o in results for a in ([o[0]] + list(o[1]))]
+        shared = [any(np.shares_memory(a, r) for r in res_arrays) for a in arrs]
+        same = len(facs) == len(ls) and all(f is arrs[i] for f, i in zip(facs, ls))
+        if not failed and (not H.same_arrays(arrs, before) or any(shared) or not same):
+            chk.finding("tensorly.cp_tensor.cp_mode_dot", {"table": table, "ls": ls, "w_idx": 0, "is_class": is_class, "copy": True, "n_ops": len(ops)},
+                        "a history of cp_mode_dot(copy=True) calls touched the caller's arrays / list or returned memory shared with them", "cp_mode_dot_history")
+        exp = "Err" if failed else "(Ok [" + "; ".join(H.zobj_res("ok", o)[4:-1] for o in results) + "])"
+        emit(lambda: f"ZHeapSeq {zmats(before)} {C.nat_list(ls)} (Some 0%nat) {C.boolc(is_class)} [{'; '.join(ops)}] {exp} "
+                     f"{zmats(arrs)} [{'; '.join(C.boolc(b) for b in shared)}] {C.boolc(same)}",
+             ("cp_mode_dot", "history", tuple(ls), is_class, len(ops), failed))
+        chk.count(key=("cp_mode_dot-history", tuple(pattern), is_class, len(ops), failed), nontrivial=True)
+        chk.hist("history_length", len(ops))
+
     # --- (E) the documented meaning of max_rank
     for it in range(12 * mult):
         K = rng.randint(1, 3)
